@@ -892,7 +892,14 @@ where
 
     #[inline]
     async fn read_bytes_vec(&mut self) -> Result<Vec<u8>, ThriftException> {
-        let len = self.reader.read_i32().await? as usize;
+        let len = self.reader.read_i32().await?;
+        if len < 0 {
+            return Err(new_protocol_exception(
+                ProtocolExceptionKind::NegativeSize,
+                format!("negative length {}", len),
+            ));
+        }
+        let len = len as usize;
         // FIXME: use maybe_uninit?
         let mut v = vec![0; len];
         self.reader.read_exact(&mut v).await?;
@@ -908,7 +915,14 @@ where
 
     #[inline]
     async fn read_string(&mut self) -> Result<String, ThriftException> {
-        let len = self.reader.read_i32().await? as usize;
+        let len = self.reader.read_i32().await?;
+        if len < 0 {
+            return Err(new_protocol_exception(
+                ProtocolExceptionKind::NegativeSize,
+                format!("negative length {}", len),
+            ));
+        }
+        let len = len as usize;
         // FIXME: use maybe_uninit?
         let mut v = vec![0; len];
         self.reader.read_exact(&mut v).await?;
